@@ -42,10 +42,14 @@ Definition led_apply (ld : list (addr * Z) * Z) (e : event) : list (addr * Z) * 
 
 Record m01 := { m_prev : obs; m_led : list (addr * Z); m_sup : Z }.
 
-Definition obs0 (start : Z) (univ : list addr) : obs :=
-  {| o_now := start; o_supply := 0; o_bal := map (fun a => (a, 0)) univ; o_allow := []; o_extra := [] |}.
-Definition m01_init (start : Z) (univ : list addr) : m01 :=
-  {| m_prev := obs0 start univ; m_led := []; m_sup := 0 |}.
+Definition m01_init (genesis : obs) : m01 := {| m_prev := genesis; m_led := []; m_sup := 0 |}.
+
+(* an event must name observed accounts only and carry a non-negative amount *)
+Definition ev_ok (univ : list addr) (e : event) : bool :=
+  let '(f, t, amt) := ev_move e in
+  (0 <=? amt)
+  && match f with Some a => mem a univ | None => true end
+  && match t with Some a => mem a univ | None => true end.
 
 Definition is_nil {A} (l : list A) : bool := match l with [] => true | _ => false end.
 
@@ -54,8 +58,12 @@ Definition c01_item (univ : list addr) (m : m01) (it : item) : bool * m01 :=
   let prev := m_prev m in
   let ld := fold_left led_apply evs (m_led m, m_sup m) in
   let ok :=
+    (* shape of the observation, clock, getters' answers, failing / getter calls and time passing
+       leave everything unchanged (Model/FungibleObs.v) *)
+    common_ok univ prev it
+    && forallb (ev_ok univ) evs
     (* total_supply = sum of all balances; no balance negative *)
-    (sum_over (bal_of cur) univ =? o_supply cur)
+    && (sum_over (bal_of cur) univ =? o_supply cur)
     && forallb (fun a => 0 <=? bal_of cur a) univ
     && match out with
        | Fail => same_token univ prev cur && is_nil evs
@@ -63,10 +71,7 @@ Definition c01_item (univ : list addr) (m : m01) (it : item) : bool * m01 :=
        end
     (* replaying every event emitted since genesis reproduces every balance and the supply *)
     && forallb (fun a => getd (fst ld) a =? bal_of cur a) univ
-    && (snd ld =? o_supply cur)
-    (* persistence: time passing alone changes nothing (balances and supply: no_move above; the
-       flavour's other stored state: here) *)
-    && advance_keeps_extras prev cur cl out in
+    && (snd ld =? o_supply cur) in
   (ok, {| m_prev := cur; m_led := fst ld; m_sup := snd ld |}).
 
 Fixpoint c01_from (univ : list addr) (m : m01) (items : list item) (i : N) : N :=
@@ -78,22 +83,28 @@ Fixpoint c01_from (univ : list addr) (m : m01) (items : list item) (i : N) : N :
   end.
 
 (* 1-based index of the first call at which the property is false on the trace; 0 = none *)
-Definition c01_monitor (t : trace) : N := c01_from (t_univ t) (m01_init (t_start t) (t_univ t)) (t_items t) 0%N.
+Definition c01_monitor (t : trace) : N :=
+  if genesis_ok (t_univ t) (t_start t) (t_init t)
+  then c01_from (t_univ t) (m01_init (t_init t)) (t_items t) 0%N
+  else 1%N.
 
 (* triage helper (not used by the driver): at the first failing call, which clause is false
    1 = supply <> sum of balances, 2 = negative balance, 3 = failing call left a trace,
    4 = wrong delta for a successful call (incl. any change across an Advance), 5 = event replay does not
-   reproduce the balances, 6 = a flavour getter changed across an Advance *)
+   reproduce the balances, 7 = shared clause (observation shape / unobserved address / clock / failing or getter
+   call or Advance changed something / getter answer differs from the observation), 8 = event naming an
+   unobserved account or carrying a negative amount, 9 = malformed header or genesis observation *)
 Definition c01_item_why (univ : list addr) (m : m01) (it : item) : N :=
   let '(cl, out, evs, cur) := it in
   let prev := m_prev m in
   let ld := fold_left led_apply evs (m_led m, m_sup m) in
-  if negb (sum_over (bal_of cur) univ =? o_supply cur) then 1%N
+  if negb (common_ok univ prev it) then 7%N
+  else if negb (forallb (ev_ok univ) evs) then 8%N
+  else if negb (sum_over (bal_of cur) univ =? o_supply cur) then 1%N
   else if negb (forallb (fun a => 0 <=? bal_of cur a) univ) then 2%N
   else if negb (match out with Fail => same_token univ prev cur && is_nil evs | Ok _ => true end) then 3%N
   else if negb (match out with Fail => true | Ok v => moved_ok univ prev cur (expected_move prev cl v) end) then 4%N
   else if negb (forallb (fun a => getd (fst ld) a =? bal_of cur a) univ && (snd ld =? o_supply cur)) then 5%N
-  else if negb (advance_keeps_extras prev cur cl out) then 6%N
   else 0%N.
 Fixpoint c01_why_from (univ : list addr) (m : m01) (items : list item) (i : N) : N * N :=
   match items with
@@ -102,7 +113,10 @@ Fixpoint c01_why_from (univ : list addr) (m : m01) (items : list item) (i : N) :
       let '(ok, m') := c01_item univ m it in
       if ok then c01_why_from univ m' r (N.succ i) else (N.succ i, c01_item_why univ m it)
   end.
-Definition c01_why (t : trace) : N * N := c01_why_from (t_univ t) (m01_init (t_start t) (t_univ t)) (t_items t) 0%N.
+Definition c01_why (t : trace) : N * N :=
+  if genesis_ok (t_univ t) (t_start t) (t_init t)
+  then c01_why_from (t_univ t) (m01_init (t_init t)) (t_items t) 0%N
+  else (1%N, 9%N).
 
 Definition check (t : trace) : verdict := (diff t, c01_monitor t, 0%N).
 Definition check_all (ts : list trace) : list verdict := map check ts.
@@ -119,7 +133,4 @@ Definition call_addrs (cl : call) : list addr :=
   | RRecover old new => [old; new]
   | _ => []
   end.
-Fixpoint nodupb (l : list addr) : bool :=
-  match l with [] => true | a :: r => negb (mem a r) && nodupb r end.
-Definition wf_calls (univ : list addr) (cs : list call) : bool :=
-  nodupb univ && forallb (fun cl => forallb (fun a => mem a univ) (call_addrs cl)) cs.
+Definition wf_calls (univ : list addr) (cs : list call) : bool := wf_calls_all univ cs.
